@@ -17,10 +17,10 @@ ALL_OPS = ["New", "Append", "SetIndices", "SetMaterial", "SetMaterials", "SetAtt
 Q = 1024
 
 
-def gen_cfg(path, nslots, depth, ops, simulate=False):
+def gen_cfg(path, nslots, depth, ops, simulate=False, bases="std"):
     with open(path, "w") as f:
-        f.write("CONSTANTS\n  NSlots = %d\n  Depth = %d\n  Ops = {%s}\n  Walk = %s\n" %
-                (nslots, depth, ",".join('"%s"' % o for o in ops), "TRUE" if simulate else "FALSE"))
+        f.write("CONSTANTS\n  NSlots = %d\n  Depth = %d\n  Ops = {%s}\n  Walk = %s\n  BaseSet = \"%s\"\n" %
+                (nslots, depth, ",".join('"%s"' % o for o in ops), "TRUE" if simulate else "FALSE", bases))
         f.write("SPECIFICATION Spec\nINVARIANTS Closed Laws %s\nPROPERTY Immutable\n" %
                 ("EmitLeaf" if simulate else "Emit"))
         if not simulate:
@@ -109,6 +109,28 @@ def collect_histories(ctx, vh):
     for h in bfs:
         h["tag"] = "bfs"
     hists += bfs
+
+    # (1b) the topology dimension: bases of every other topology (quad, line, line strip, line loop) under the
+    # operations whose contract does not depend on the topology, every exporter and the scans
+    agnostic = ["New", "Append", "SetMaterial", "SetMaterials", "SetAttr", "ModifyAttr", "CopyAttr", "Translate", "Scale",
+                "Rotate", "ApplyTRS", "TranslateAttr", "ScaleAttr", "RotateAttr", "CenterAttr", "ToPointCloud", "Repeat",
+                "Export", "Scan"]
+    gen_cfg(os.path.join(d2, "GenTopo.cfg"), 2, 3, agnostic, bases="topo")
+    r = core.run_tlc(ctx.scratch("gentopo"), "MeshPool", "GenTopo.cfg", files=[(os.path.join(d2, "GenTopo.cfg"), "GenTopo.cfg")],
+                     workers=core.NCPU, timeout=1500, heap="8g")
+    if r.rc != 0:
+        raise core.Infra("MeshPool specification (topology bases) violates its own property %s (spec bug)" % r.violated)
+    ctx.add_tlc(r)
+    topo = drop_prefixes([v for v in r.values if isinstance(v, dict) and "steps" in v])
+    notes["topology_histories_generated"] = len(topo)
+    if tier == "quick":
+        topo = topo[seed % 4::4]
+    notes["topology_histories"] = len(topo)
+    if not topo:
+        raise core.Infra("the topology generator emitted nothing")
+    for h in topo:
+        h["tag"] = "topo"
+    hists += topo
 
     if tier == "thorough":
         # one level deeper over the operations that share / extend / re-index storage
